@@ -18,7 +18,7 @@ static uint64_t inv64(uint64_t a) { // inverse of an odd number modulo 2^64
 }
 
 static const char* set_flavour_name(int f) {
-    static const char* n[] = {"clustered-pointers", "regular-strides", "high-bits-only", "small-integers", "random64", "typeinfo-like"};
+    static const char* n[] = {"clustered-pointers", "regular-strides", "high-bits-only", "small-integers", "random64", "typeinfo-like", "bit63-pairs"};
     return n[f];
 }
 
@@ -48,6 +48,13 @@ static std::vector<type_id> gen_ids(Rng& rng, int flavour, int n) {
             break;
         case 5: // type_info objects in .data.rel.ro: 16 or 24 byte objects, mixed
             id = base + (uint64_t)k * 16 + (rng.chance(1, 3) ? 8 : 0);
+            break;
+        case 6: // pairs of ids that differ only in the top bit; id 0 and the largest legal id included
+            id = (base + (uint64_t)(k / 2) * 24) | ((uint64_t)(k & 1) << 63);
+            if (k == 0 && rng.chance(1, 2))
+                id = 0;
+            if (k == 1 && rng.chance(1, 2))
+                id = yorel::yomm2::invalid_type - 1;
             break;
         }
         ++k;
@@ -174,17 +181,23 @@ int prop_hash(Run& run) {
         if (mode <= 5 || mode == 8) {
             int steps = rng.range(1, thorough ? 10 : 6);
             std::vector<type_id> cur, stale;
-            int flavour = (int)rng.below(6);
+            int flavour = (int)rng.below(7);
+            static const int boundary_sizes[] = {1, 2, 3, 4, 5, 7, 8, 9, 12, 13, 15, 16, 17, 25, 26, 31, 32, 33, 51, 52, 63, 64, 65, 102, 103, 127, 128, 129, 204, 205, 255, 256, 257};
             for (int st = 0; st < steps; ++st) {
                 int op = st == 0 ? 0 : (int)rng.below(6); // 0 fresh, 1 grow, 2 shrink, 3 disjoint same flavour, 4 empty, 5 same again
                 std::vector<type_id> prev = cur;
                 int maxn = thorough ? 600 : 200;
                 int n = rng.chance(1, 3) ? rng.range(0, 8) : rng.chance(1, 2) ? rng.range(0, 60) : rng.range(0, maxn);
+                if (rng.chance(1, 4)) { // sizes around powers of two and around the 5/4 rounding of the bucket count
+                    n = boundary_sizes[rng.below(sizeof(boundary_sizes) / sizeof(int))];
+                    if (n > maxn)
+                        n = maxn;
+                }
                 if (flavour == 4 && n > 40)
                     n = rng.range(0, 40); // random ids: keep the search feasible
                 switch (op) {
                 case 0:
-                    flavour = (int)rng.below(6);
+                    flavour = (int)rng.below(7);
                     if (flavour == 4 && n > 40)
                         n = rng.range(0, 40);
                     cur = gen_ids(rng, flavour, n);
